@@ -197,6 +197,7 @@ pub fn c10(a: &Args) -> Report {
     }
     rep.count("icase_pairs_compared", compared);
     crate::tokenlevel::c10_spellings(&mut rep);
+    crate::tokenlevel::c10_literal_forms(&mut rep);
     rep
 }
 
